@@ -8,6 +8,8 @@ import (
 	"regexp"
 	"strings"
 
+	"golang.org/x/tools/go/ssa"
+
 	"texelverif/internal/core"
 )
 
@@ -681,186 +683,238 @@ func r03HalfOpenTables(c *core.Ctx) {
 // edge.  Each exception is located by the facts that guard it, not by its text.
 func r03LineIntersectsExceptions(c *core.Ctx, li *core.Func) {
 	const R = "R03"
-	info := li.Pkg.TypesInfo
-	var loop *ast.RangeStmt
-	ast.Inspect(li.Decl.Body, func(n ast.Node) bool {
-		if r, ok := n.(*ast.RangeStmt); ok && loop == nil && len(core.CallsIn(info, r.X, "intgeom.Extent.Edges")) == 1 {
-			loop = r
+	fn := li.SSA
+	keys := []string{"endpoint-inside-counts", "skip-own-tip-on-exclusive-edge", "skip-tip-on-exclusive-end-of-inclusive-edge", "intersection-counts", "overlap-with-inclusive-edge-counts"}
+	fail := func(why string) {
+		for _, k := range keys {
+			c.Bad(R, "segment-pixel-test/"+k+"/"+li.Name, li.Decl.Pos(), why)
 		}
-		return loop == nil
-	})
-	if loop == nil {
+	}
+	if fn == nil || len(fn.Params) != 2 {
+		fail("lineIntersects(line, extent) not found in this shape")
+		return
+	}
+	// the loop over the extent's edges: header tests index < len(extent.Edges(...))
+	var header *ssa.BasicBlock
+	var edges *ssa.Call
+	for _, b := range fn.Blocks {
+		i := core.BlockIf(b)
+		if i == nil {
+			continue
+		}
+		cmp, ok := i.Cond.(*ssa.BinOp)
+		if !ok || cmp.Op != token.LSS {
+			continue
+		}
+		if lc, ok := cmp.Y.(*ssa.Call); ok {
+			if _, isLen := isBuiltinCall(lc, "len"); isLen {
+				if ec, ok := lc.Call.Args[0].(*ssa.Call); ok && core.StaticCalleeID(ec) == core.ModPath+"/intgeom.Extent.Edges" {
+					header, edges = b, ec
+				}
+			}
+		}
+	}
+	if header == nil {
 		c.Bad(R, "edge-loop/"+li.Name, li.Decl.Pos(), "lineIntersects no longer ranges over the extent's edges")
 		return
 	}
-	lineParam := li.Obj.Type().(*types.Signature).Params().At(0)
-	edgeI := canon(loop.Key)
-	var interVar string
-	var interPt types.Object
-	for _, s := range loop.Body.List {
-		if as, ok := s.(*ast.AssignStmt); ok && len(as.Lhs) == 2 && len(as.Rhs) == 1 {
-			if call, ok := as.Rhs[0].(*ast.CallExpr); ok && core.IsCallTo(info, call, "intgeom.SegmentIntersect") {
-				interPt, interVar = core.ObjOf(info, as.Lhs[0]), canon(as.Lhs[1])
-			}
-		}
-	}
-	if interVar == "" || interPt == nil {
-		c.Bad(R, "edge-loop/"+li.Name, loop.Pos(), "no intgeom.SegmentIntersect call per edge")
+	if resolveValue(edges.Call.Args[0]) != ssa.Value(fn.Params[1]) {
+		c.Bad(R, "edge-loop/"+li.Name, edges.Pos(), "the edges tested are not those of the extent handed to lineIntersects")
 		return
 	}
-	excl := "isExclusiveEdge(" + edgeI + ")"
-	// isTipTest: cond is exactly "one of the two endpoints of the line equals the point pt" and returns pt
-	var isTipTest func(cond ast.Expr) ast.Expr
-	isTipTest = func(cond ast.Expr) ast.Expr {
-		dj := disjuncts(cond)
-		if len(dj) == 2 {
-			var pt ast.Expr
-			seen := map[int64]bool{}
-			for _, d := range dj {
-				be, ok := ast.Unparen(d).(*ast.BinaryExpr)
-				if !ok || be.Op != token.EQL {
-					return nil
-				}
-				l, r := be.X, be.Y
-				ix, ok := ast.Unparen(l).(*ast.IndexExpr)
-				if !ok {
-					ix, ok = ast.Unparen(r).(*ast.IndexExpr)
-					l, r = r, l
-				}
-				if !ok || core.ObjOf(info, ix.X) != lineParam {
-					return nil
-				}
-				k, isConst := core.ConstInt(info, ix.Index)
-				if !isConst {
-					return nil
-				}
-				seen[k] = true
-				if pt != nil && canon(pt) != canon(r) {
-					return nil
-				}
-				pt = r
-			}
-			if seen[0] && seen[1] {
-				return pt
-			}
-			return nil
+	edgeIdx := core.BlockIf(header).Cond.(*ssa.BinOp).X
+	// roles: the segment, its endpoints, the crossing point, the exclusive tip, the edge and its number
+	var roleOf func(fr *boolFrame, v ssa.Value) string
+	roleOf = func(fr *boolFrame, v ssa.Value) string {
+		v = resolveValue(v)
+		if r, ok := fr.roles[v]; ok {
+			return r
 		}
-		// helper(line, pt) whose body is that disjunction on its own parameters
-		if call, ok := ast.Unparen(cond).(*ast.CallExpr); ok && len(call.Args) == 2 && core.ObjOf(info, call.Args[0]) == lineParam {
-			if f := core.Callee(info, call); f != nil {
-				if hf := c.P.ByObj[f.Origin()]; hf != nil && len(hf.Decl.Body.List) == 1 {
-					if ret, ok := hf.Decl.Body.List[0].(*ast.ReturnStmt); ok && len(ret.Results) == 1 {
-						hsig := hf.Obj.Type().(*types.Signature)
-						hinfo := hf.Pkg.TypesInfo
-						dj := disjuncts(ret.Results[0])
-						okH := len(dj) == 2
-						seen := map[int64]bool{}
-						for _, d := range dj {
-							be, ok := ast.Unparen(d).(*ast.BinaryExpr)
-							if !ok || be.Op != token.EQL {
-								okH = false
-								continue
-							}
-							l, r := be.X, be.Y
-							ix, ok := ast.Unparen(l).(*ast.IndexExpr)
-							if !ok {
-								ix, ok = ast.Unparen(r).(*ast.IndexExpr)
-								l, r = r, l
-							}
-							if !ok || core.ObjOf(hinfo, ix.X) != hsig.Params().At(0) || core.ObjOf(hinfo, r) != hsig.Params().At(1) {
-								okH = false
-								continue
-							}
-							if k, isC := core.ConstInt(hinfo, ix.Index); isC {
-								seen[k] = true
-							}
-						}
-						if okH && seen[0] && seen[1] {
-							return call.Args[1]
-						}
-					}
-				}
-			}
-		}
-		return nil
-	}
-	isExclusiveTipOf := func(pt ast.Expr, at ast.Node) bool {
-		if call, ok := ast.Unparen(pt).(*ast.CallExpr); ok && core.IsCallTo(info, call, "pointindex.getExclusiveTip") {
-			return canon(call.Args[0]) == edgeI
-		}
-		if o := core.ObjOf(info, pt); o != nil {
-			if def := singleDef(info, loop.Body, o); def != nil {
-				if call, ok := def.(*ast.CallExpr); ok && core.IsCallTo(info, call, "pointindex.getExclusiveTip") {
-					return canon(call.Args[0]) == edgeI
-				}
-			}
-		}
-		return false
-	}
-	found := map[string]bool{}
-	core.InspectNoLit(loop.Body, func(n ast.Node) bool {
-		switch s := n.(type) {
-		case *ast.BranchStmt:
-			if s.Tok != token.CONTINUE {
-				return true
-			}
-			facts := enclosingFacts(loop.Body, s)
-			var inner ast.Expr
-			for _, pn := range pathTo(loop.Body, s) {
-				if is, ok := pn.(*ast.IfStmt); ok {
-					inner = is.Cond
-				}
-			}
-			if inner == nil || !hasFact(facts, interVar, true) {
-				return true
-			}
-			pt := isTipTest(inner)
-			if pt == nil {
-				return true
-			}
+		if fr.fn == fn {
 			switch {
-			case hasFact(facts, excl, true) && core.ObjOf(info, pt) == interPt:
-				found["skip-own-tip-on-exclusive-edge"] = true
-			case hasFact(facts, excl, false) && isExclusiveTipOf(pt, s):
-				found["skip-tip-on-exclusive-end-of-inclusive-edge"] = true
+			case v == ssa.Value(fn.Params[0]):
+				return "line"
+			case v == ssa.Value(fn.Params[1]):
+				return "extent"
+			case v == edgeIdx:
+				return "edgeI"
 			}
-		case *ast.ReturnStmt:
-			if len(s.Results) != 1 || canon(s.Results[0]) != "true" {
-				return true
-			}
-			facts := enclosingFacts(loop.Body, s)
-			switch {
-			case hasFact(facts, interVar, true):
-				found["intersection-counts"] = true
-			case hasFact(facts, excl, false) && hasFact(facts, interVar, false):
-				for _, f := range facts {
-					if strings.HasPrefix(f.expr, "lineOverlapsInclusiveEdge(") && f.val {
-						found["overlap-with-inclusive-edge-counts"] = true
-					}
+			if ld, ok := v.(*ssa.UnOp); ok && ld.Op == token.MUL {
+				if ia, ok := ld.X.(*ssa.IndexAddr); ok && ia.X == ssa.Value(edges) && ia.Index == edgeIdx {
+					return "edge"
 				}
 			}
 		}
-		return true
-	})
-	// (1) endpoint inside => true, before the loop
-	nInside := 0
-	for _, st := range li.Decl.Body.List {
-		if st == ast.Stmt(loop) {
-			break
-		}
-		if is, ok := st.(*ast.IfStmt); ok && len(is.Body.List) == 1 {
-			if ret, ok := is.Body.List[0].(*ast.ReturnStmt); ok && len(ret.Results) == 1 && canon(ret.Results[0]) == "true" && len(disjuncts(is.Cond)) == 2 {
-				nInside++
+		if arr, k, ok := elementOf(v); ok {
+			if r := roleOf(fr, arr); r == "line" {
+				return fmt.Sprintf("line[%d]", k)
 			}
 		}
+		switch x := v.(type) {
+		case *ssa.Extract:
+			if call, ok := x.Tuple.(*ssa.Call); ok && core.StaticCalleeID(call) == core.ModPath+"/intgeom.SegmentIntersect" && x.Index == 0 {
+				if roleOf(fr, call.Call.Args[0]) == "line" && roleOf(fr, call.Call.Args[1]) == "edge" {
+					return "crossing"
+				}
+			}
+		case *ssa.Call:
+			if core.StaticCalleeID(x) == core.ModPath+"/pointindex.getExclusiveTip" && roleOf(fr, x.Call.Args[0]) == "edgeI" && roleOf(fr, x.Call.Args[1]) == "edge" {
+				return "tip"
+			}
+		}
+		return ""
 	}
-	if len(core.CallsIn(info, li.Decl, "pointindex.containsPoint")) == 2 && nInside == 1 {
-		found["endpoint-inside-counts"] = true
+	atom := func(fr *boolFrame, v ssa.Value) (string, bool, bool) {
+		switch x := v.(type) {
+		case *ssa.Extract:
+			if call, ok := x.Tuple.(*ssa.Call); ok && core.StaticCalleeID(call) == core.ModPath+"/intgeom.SegmentIntersect" && x.Index == 1 {
+				if roleOf(fr, call.Call.Args[0]) == "line" && roleOf(fr, call.Call.Args[1]) == "edge" {
+					return "I", false, true
+				}
+			}
+		case *ssa.Call:
+			switch core.StaticCalleeID(x) {
+			case core.ModPath + "/pointindex.isExclusiveEdge":
+				if roleOf(fr, x.Call.Args[0]) == "edgeI" {
+					return "E", false, true
+				}
+			case core.ModPath + "/pointindex.lineOverlapsInclusiveEdge":
+				if roleOf(fr, x.Call.Args[0]) == "line" && roleOf(fr, x.Call.Args[1]) == "edgeI" && roleOf(fr, x.Call.Args[2]) == "edge" {
+					return "O", false, true
+				}
+			case core.ModPath + "/pointindex.containsPoint":
+				if r := roleOf(fr, x.Call.Args[0]); (r == "line[0]" || r == "line[1]") && roleOf(fr, x.Call.Args[1]) == "extent" {
+					return "C" + r[5:6], false, true
+				}
+			}
+		case *ssa.BinOp:
+			if x.Op != token.EQL && x.Op != token.NEQ {
+				break
+			}
+			l, r := roleOf(fr, x.X), roleOf(fr, x.Y)
+			if l == "crossing" || l == "tip" {
+				l, r = r, l
+			}
+			if (l == "line[0]" || l == "line[1]") && (r == "crossing" || r == "tip") {
+				name := "X" + l[5:6] // endpoint k equals the crossing point
+				if r == "tip" {
+					name = "T" + l[5:6] // endpoint k equals the exclusive tip of the (inclusive) edge
+				}
+				return name, x.Op == token.NEQ, true
+			}
+		}
+		return "", false, false
 	}
-	for _, k := range []string{"endpoint-inside-counts", "skip-own-tip-on-exclusive-edge", "skip-tip-on-exclusive-end-of-inclusive-edge", "intersection-counts", "overlap-with-inclusive-edge-counts"} {
-		c.Check(R, "segment-pixel-test/"+k+"/"+li.Name, loop.Pos(), found[k], "present, guarded by the ownership facts it belongs to, and its tip test is exactly `an endpoint of the segment equals that point`",
-			"lineIntersects no longer applies the rule `"+k+"` in its exact form: a segment that only touches a pixel at a border point the pixel does not own (or runs along an owned border) is attributed wrongly")
+	// decision tables
+	names := []string{"I", "E", "X0", "X1", "T0", "T1", "O"}
+	type row struct {
+		assign map[string]bool
+		got    string
 	}
+	var rows []row
+	errText := ""
+	for m := 0; m < 1<<len(names); m++ {
+		as := map[string]bool{}
+		for i, n := range names {
+			as[n] = m&(1<<i) != 0
+		}
+		bi := &boolInterp{roleOf: roleOf, atom: atom, assign: as, used: map[string]bool{}}
+		fr := &boolFrame{fn: fn, roles: map[ssa.Value]string{}, env: map[ssa.Value]bool{}, prev: header}
+		out, err := bi.run(fr, header.Succs[0], map[*ssa.BasicBlock]bool{header: true}, 0)
+		got := ""
+		switch {
+		case err != nil:
+			errText = err.Error()
+			got = "?"
+		case out.kind == "block":
+			got = "next-edge"
+		case out.kind == "return" && out.val:
+			got = "true"
+		case out.kind == "return":
+			got = "false"
+		default:
+			got = out.kind
+		}
+		rows = append(rows, row{as, got})
+	}
+	verdict := func(key string, applies func(a map[string]bool) bool, want func(a map[string]bool) string) {
+		construct := "segment-pixel-test/" + key + "/" + li.Name
+		n := 0
+		for _, r := range rows {
+			if !applies(r.assign) {
+				continue
+			}
+			n++
+			if r.got == "?" {
+				c.Unknown(R, construct, edges.Pos(), "the per-edge decision of lineIntersects is not understood: "+errText)
+				return
+			}
+			if w := want(r.assign); r.got != w {
+				c.Bad(R, construct, edges.Pos(), fmt.Sprintf("lineIntersects no longer applies the rule `%s`: for an edge with %s the code gives %s where the rule gives %s: a segment that only touches a pixel at a border point the pixel does not own (or runs along an owned border) is attributed wrongly", key, describeAssign(names, r.assign), r.got, w))
+				return
+			}
+		}
+		c.OK(R, construct, edges.Pos(), fmt.Sprintf("decision table of the per-edge code agrees with the rule on all %d valuations of its conditions (whatever the form: nested ifs, early returns, helper)", n))
+	}
+	b2s := func(b bool) string {
+		if b {
+			return "true"
+		}
+		return "next-edge"
+	}
+	verdict("intersection-counts", func(a map[string]bool) bool {
+		return a["I"] && ((a["E"] && !a["X0"] && !a["X1"]) || (!a["E"] && !a["T0"] && !a["T1"]))
+	}, func(a map[string]bool) string { return "true" })
+	verdict("skip-own-tip-on-exclusive-edge", func(a map[string]bool) bool { return a["I"] && a["E"] }, func(a map[string]bool) string { return b2s(!a["X0"] && !a["X1"]) })
+	verdict("skip-tip-on-exclusive-end-of-inclusive-edge", func(a map[string]bool) bool { return a["I"] && !a["E"] }, func(a map[string]bool) string { return b2s(!a["T0"] && !a["T1"]) })
+	verdict("overlap-with-inclusive-edge-counts", func(a map[string]bool) bool { return !a["I"] }, func(a map[string]bool) string { return b2s(!a["E"] && a["O"]) })
+	// (1) an endpoint inside the extent => true, before any edge is looked at; otherwise the edges decide
+	{
+		construct := "segment-pixel-test/endpoint-inside-counts/" + li.Name
+		okIn, why := true, ""
+		for m := 0; m < 4 && okIn; m++ {
+			as := map[string]bool{"C0": m&1 != 0, "C1": m&2 != 0}
+			bi := &boolInterp{roleOf: roleOf, atom: atom, assign: as, used: map[string]bool{}}
+			fr := &boolFrame{fn: fn, roles: map[ssa.Value]string{}, env: map[ssa.Value]bool{}}
+			out, err := bi.run(fr, fn.Blocks[0], map[*ssa.BasicBlock]bool{header: true}, 0)
+			switch {
+			case err != nil:
+				okIn, why = false, err.Error()
+			case as["C0"] || as["C1"]:
+				if !(out.kind == "return" && out.val) {
+					okIn, why = false, fmt.Sprintf("with endpoint-inside = (%v, %v) the code does not return true at once", as["C0"], as["C1"])
+				}
+			default:
+				if out.kind != "block" {
+					okIn, why = false, "with both endpoints outside the extent the edges are not consulted"
+				}
+			}
+		}
+		c.Check(R, construct, li.Decl.Pos(), okIn, "containsPoint(line[0]) || containsPoint(line[1]) returns true before the edge loop; otherwise the edges decide", "lineIntersects no longer applies the rule `endpoint-inside-counts`: "+why)
+	}
+	// after the last edge without a verdict: false
+	{
+		okEnd := false
+		done := header.Succs[1]
+		if len(done.Instrs) == 1 {
+			if ret, ok := done.Instrs[0].(*ssa.Return); ok && len(ret.Results) == 1 && isConstBool(ret.Results[0], false) {
+				okEnd = true
+			}
+		}
+		c.Check(R, "segment-pixel-test/no-edge-no-hit/"+li.Name, li.Decl.Pos(), okEnd, "when no edge decides, the segment does not touch the pixel", "lineIntersects does not return false after all edges were tested without a hit")
+	}
+}
+
+func describeAssign(names []string, a map[string]bool) string {
+	text := map[string]string{"I": "crossing", "E": "exclusive-edge", "X0": "endpoint0==crossing", "X1": "endpoint1==crossing", "T0": "endpoint0==exclusive-tip", "T1": "endpoint1==exclusive-tip", "O": "overlaps-inclusive-edge"}
+	out := ""
+	for _, n := range names {
+		if out != "" {
+			out += ", "
+		}
+		out += fmt.Sprintf("%s=%v", text[n], a[n])
+	}
+	return out
 }
 
 // cmpAtom is a comparison l op r in negation normal form.
